@@ -14,7 +14,7 @@ import (
 func init() {
 	fw.Register(&fw.Check{
 		ID: "C12", Level: "model_checking",
-		Rule: "ALL inheritance graphs over 2..3 (quick) / 2..4 (thorough) object types: every assignment of an ordered list of 0..2 distinct bases to each type (chains, several bases, shared bases, diamonds, cycles) x own-property pattern per type {one private property, private + a name shared by all, none} x ALL declaration orders x host of an additional inheriting schema {none, request, response, response headers, query, nested object property of a type}; oracle, in every accepted document: each type's property list = the reference inheritance (bases in naming order, transitively, each property marked with the named base it came through, each key once, own properties last) and base types stay as declared; plus negative cases (override of an inherited property, non-object base, undefined base) rejected; non-trivial = accepted document with at least one allOf; distinct = distinct documents",
+		Rule: "ALL inheritance graphs over 2..3 (quick) / 2..4 (thorough) object types: every assignment of an ordered list of 0..2 distinct bases to each type (chains, several bases, shared bases, diamonds, cycles) x own-property pattern per type {one private property, private + a name shared by all, none, private + a property keyed by a type reference} x ALL declaration orders x host of an additional inheriting schema {none, request, response, response headers, query, nested object property of a type}; oracle, in every accepted document: each type's property list = the reference inheritance (bases in naming order, transitively, each property marked with the named base it came through, each key once, own properties last) and base types stay as declared; plus negative cases (override of an inherited property, non-object base, undefined base) rejected; non-trivial = accepted document with at least one allOf; distinct = distinct documents",
 		Assume: []string{"documents the schema library rejects (e.g. the same key reachable through two bases, cycles) are counted, not judged: the property speaks about accepted documents"},
 		Run:    runC12, QuickCap: 8 * time.Minute, ThoroughCap: 40 * time.Minute,
 	})
@@ -72,6 +72,10 @@ func objBody(bases []string, own []string, val int) string {
 	}
 	var lines []string
 	for j, k := range own {
+		if strings.HasPrefix(k, "@") {
+			lines = append(lines, fmt.Sprintf("  %s: %d", k, val*10+j)) // key shortcut: the key is a type reference
+			continue
+		}
 		lines = append(lines, fmt.Sprintf("  \"%s\": %d", k, val*10+j))
 	}
 	if len(lines) == 0 {
@@ -131,7 +135,7 @@ func runC12(c *fw.Ctx) {
 			}
 			baseOpts = append(baseOpts, opts)
 		}
-		ownPatterns := 3
+		ownPatterns := 4
 		idx := make([]int, n)  // base option per type
 		pat := make([]int, n)  // own pattern per type
 		var recB func(i int)
@@ -149,6 +153,8 @@ func runC12(c *fw.Ctx) {
 					ts[i].own = []string{"p" + names[i]}
 				case 1:
 					ts[i].own = []string{"p" + names[i], "shared"}
+				case 3:
+					ts[i].own = []string{"p" + names[i], "@k" + names[i]} // a property keyed by a type reference
 				}
 			}
 			if !anyAllOf {
@@ -167,6 +173,11 @@ func runC12(c *fw.Ctx) {
 							bn = append(bn, "@"+ts[b].name)
 						}
 						nodes = append(nodes, doc.N("TYPE", "@"+ts[i].name).WithBody(objBody(bn, ts[i].own, i+1)))
+					}
+					for i := 0; i < n; i++ {
+						if pat[i] == 3 {
+							nodes = append(nodes, doc.N("TYPE", "@k"+names[i]).WithBody("\"key\""))
+						}
 					}
 					// the extra inheriting schema takes the last type as its base
 					hb := objBody([]string{"@" + ts[n-1].name}, []string{"hostown"}, 9)
